@@ -127,6 +127,19 @@ def build(cfg, values=None):
                     facts.append(p.r.n > 0)
                 _S.POLICY = OrderPolicy(facts)
             try:
+                if cfg.get('history'):
+                    # an earlier evaluation of the same panel object at another flight condition (speed sweep): the result must
+                    # follow the CURRENT Mach number, density and speed
+                    M0, rho0, V0, q0 = ctx.V('Mach_before'), ctx.V('rho_before'), ctx.V('V_before'), ctx.V('sqrt_before')
+                    if values is not None:
+                        M0, q0 = _S(Fraction(13, 5)), _S(Fraction(12, 5))
+                    p.Mach, p.rho_air, p.V = M0, rho0, V0
+                    _S.SQRT_HOOK = lambda x: q0
+                    if values is None:
+                        _S.POLICY = OrderPolicy(facts + [M0.n > 1, q0.n > 0, q0.n * q0.n == M0.n * M0.n - 1, rho0.n > 0, V0.n > 0])
+                    p.calc_kA(silent=True)
+                    p.Mach, p.rho_air, p.V = M, rho, V_
+                    _S.SQRT_HOOK = hook
                 K = p.calc_kA(silent=True).todict()
             finally:
                 _S.SQRT_HOOK = hook_saved
@@ -189,7 +202,8 @@ def configs(tier, seed):
         for flow in ('x', 'y'):
             for (m, n) in pairs:
                 out.append({'model': model, 'm': m, 'n': n, 'variant': 'kA', 'flow': flow, 'group': 'kA-flow-%s:%s' % (flow, model)})
-            out.append({'model': model, 'm': 2, 'n': 2, 'variant': 'mach', 'flow': flow, 'group': 'mach-route-flow-%s:%s' % (flow, model)})
+            out.append({'model': model, 'm': 4 if flow == 'x' else 1, 'n': 1 if flow == 'x' else 4, 'variant': 'mach', 'flow': flow, 'group': 'mach-route-flow-%s:%s' % (flow, model)})
+            out.append({'model': model, 'm': 4 if flow == 'x' else 1, 'n': 1 if flow == 'x' else 4, 'variant': 'mach', 'flow': flow, 'history': True, 'group': 'mach-route-second-flight-condition-flow-%s:%s' % (flow, model)})
         out.append({'model': model, 'm': 3, 'n': 2, 'variant': 'cA', 'flow': 'x', 'group': 'cA:%s' % model})
         out.append({'model': model, 'm': 2, 'n': 3, 'variant': 'cA', 'flow': 'y', 'group': 'cA:%s' % model})
         if model != 'cpanel':
